@@ -773,6 +773,10 @@ func (p *proxy) forwardProduce(ctx context.Context, header *protocol.RequestHead
 			// and requested partitions the backend left out get an error entry
 			// below, so the client always sees one result per partition.
 			pending := make(pendingPartitions)
+			// retried holds the partitions of this reply that go into the next
+			// attempt; the retry sends every occurrence of such a partition
+			// again, so none of them gets an error entry here.
+			retried := make(pendingPartitions)
 			for _, topic := range r.subReq.Topics {
 				for _, part := range topic.Partitions {
 					pending.add(topic.Topic, part.Partition)
@@ -784,6 +788,7 @@ func (p *proxy) forwardProduce(ctx context.Context, header *protocol.RequestHead
 						continue
 					}
 					if part.ErrorCode == protocol.NOT_LEADER_OR_FOLLOWER {
+						retried.add(topic.Topic, part.Partition)
 						if failedPartitions == nil {
 							failedPartitions = make(map[string]map[int32]bool)
 						}
@@ -803,6 +808,9 @@ func (p *proxy) forwardProduce(ctx context.Context, header *protocol.RequestHead
 			for _, topic := range r.subReq.Topics {
 				for _, part := range topic.Partitions {
 					if !pending.take(topic.Topic, part.Partition) {
+						continue
+					}
+					if retried[topic.Topic][part.Partition] > 0 {
 						continue
 					}
 					p.logger.Warn("produce reply is missing a requested partition", "target", r.target, "topic", topic.Topic, "partition", part.Partition)
@@ -1821,6 +1829,7 @@ func (p *proxy) forwardFetch(ctx context.Context, header *protocol.RequestHeader
 			}
 			// Reconcile the reply against what was sent, as forwardProduce does.
 			pending := make(pendingPartitions)
+			retried := make(pendingPartitions)
 			for _, topic := range r.subReq.Topics {
 				for _, part := range topic.Partitions {
 					pending.add(fetchReplyKey(header.APIVersion, topic.Topic, topic.TopicID), part.Partition)
@@ -1832,6 +1841,7 @@ func (p *proxy) forwardFetch(ctx context.Context, header *protocol.RequestHeader
 						continue
 					}
 					if part.ErrorCode == protocol.NOT_LEADER_OR_FOLLOWER {
+						retried.add(fetchReplyKey(header.APIVersion, topic.Topic, topic.TopicID), part.Partition)
 						topicName := topic.Topic
 						if topicName == "" {
 							topicName = p.resolveTopicID(ctx, topic.TopicID)
@@ -1856,6 +1866,9 @@ func (p *proxy) forwardFetch(ctx context.Context, header *protocol.RequestHeader
 			for _, topic := range r.subReq.Topics {
 				for _, part := range topic.Partitions {
 					if !pending.take(fetchReplyKey(header.APIVersion, topic.Topic, topic.TopicID), part.Partition) {
+						continue
+					}
+					if retried[fetchReplyKey(header.APIVersion, topic.Topic, topic.TopicID)][part.Partition] > 0 {
 						continue
 					}
 					p.logger.Warn("fetch reply is missing a requested partition", "target", r.target, "topic", fetchTopicKey(topic.Topic, topic.TopicID), "partition", part.Partition)
